@@ -601,7 +601,7 @@ func QuickBounds() []Bounds {
 
 func ThoroughBounds() []Bounds {
 	return []Bounds{
-		{Name: "thorough-exhaustive", MaxRT: 3, MaxLen: 4, RouteFrom: 2, PanicFrom: 2, GoFrom: 2, MaxK: 3, IntFrom: 1, Limits: []int{0, 3, 4}},
+		{Name: "thorough-exhaustive", MaxRT: 3, MaxLen: 4, RouteFrom: 2, PanicFrom: 2, GoFrom: 2, MaxK: 3, IntFrom: 2, Limits: []int{0, 4}},
 		// random behaviours of length 8 with every action enabled at every step; TLC prints ALL successors
 		// of every state a behaviour visits, so each behaviour contributes about 8 x 150 transitions
 		{Name: "thorough-simulation", MaxRT: 3, MaxLen: 8, RouteFrom: 0, PanicFrom: 0, GoFrom: 0, MaxK: 3, IntFrom: 0, Limits: []int{0, 2, 3, 4, 5}, Simulate: true, Num: 8, Depth: 8},
